@@ -269,6 +269,8 @@ class ElementList(MutableSequence):
         """
         if self._can_add_child(child):
             if self.element == child.parent:
+                if any(c is child for c in self.list):
+                    return  # already a child of this element
                 self._remove_from_traversal_index(child)
                 self.list.append(child)
                 try:
